@@ -79,7 +79,15 @@ type acceptObs struct {
 	Step      int
 }
 
+type shutdownObs struct {
+	Err  error
+	Step int
+	At   time.Duration
+}
+
 type lifeOutcome struct {
+	Second *shutdownObs // result of the second, concurrent Shutdown call (if any)
+
 	mu                                 sync.Mutex
 	Accepts                            []acceptObs
 	CloseCB                            map[string]int
@@ -119,7 +127,9 @@ func genC17(t *Tape) *lifeScenario {
 	sc.Second = []string{"", "", "", "shutdown", "cancel"}[t.Choose(5)]
 	sc.SecondAfter = []time.Duration{0, 0, 300 * time.Microsecond, 20 * time.Millisecond, 80 * time.Millisecond}[t.Choose(5)]
 	sc.ActionAt = []time.Duration{0, 0, time.Millisecond, 5 * time.Millisecond, 20 * time.Millisecond, 60 * time.Millisecond, 150 * time.Millisecond, 400 * time.Millisecond}[t.Choose(8)]
-	sc.ActionAt += time.Duration(t.Choose(3000)) * time.Microsecond
+	if sc.ActionAt > 0 { // keep the exact instant 0: the controller may then act before Serve has even started
+		sc.ActionAt += time.Duration(t.Choose(3000)) * time.Microsecond
+	}
 	sc.ShutdownCtx = 5 * time.Second
 	if sc.Action == "shutdown_tight" {
 		sc.ShutdownCtx = time.Duration(1+t.Choose(80)) * time.Millisecond
@@ -478,6 +488,11 @@ func runLife(rc *RunCtx, sc *lifeScenario, seed uint64) *lifeOutcome {
 			s.Logf("second: shutdown-call")
 			err := srv.Shutdown(sctx)
 			s.Logf("second: shutdown-returned %v", err)
+			if !sc.Race {
+				out.mu.Lock()
+				out.Second = &shutdownObs{Err: err, Step: s.Step, At: s.Now()}
+				out.mu.Unlock()
+			}
 		})
 	}
 	if sc.AddrCaller {
@@ -687,17 +702,30 @@ func checkC17(rc *RunCtx, sc *lifeScenario, out *lifeOutcome, seed uint64) {
 			break
 		}
 	}
-	// --- graceful shutdown ---
+	// --- graceful shutdown (every Shutdown call that returned nil carries the same obligations) ---
+	type sd struct {
+		label   string
+		retStep int
+		at      time.Duration
+	}
+	var sds []sd
 	if out.ShutdownDone && out.ShutdownErr == nil {
+		sds = append(sds, sd{"shutdown", out.ShutdownRetStep, out.ShutdownAt})
+	}
+	if out.Second != nil && out.Second.Err == nil {
+		sds = append(sds, sd{"second_shutdown", out.Second.Step, out.Second.At})
+	}
+	for _, d := range sds {
+		after := "|after=" + d.label
 		if !out.ServeRet {
-			rc.Violate("serve_not_returned", cb+"|after=shutdown", "Shutdown returned nil at %v but Serve had not returned 2 simulated seconds later (no further external event)", out.ShutdownAt)
+			rc.Violate("serve_not_returned", cb+after, "%s returned nil at %v but Serve had not returned by the end of the scenario (no further external event)", d.label, d.at)
 		} else if !errors.Is(out.ServeErr, server.ErrServerClosed) {
-			rc.Violate("serve_wrong_error", cb+"|after=shutdown", "Shutdown returned nil; Serve returned %v, not ErrServerClosed", out.ServeErr)
+			rc.Violate("serve_wrong_error", cb+after, "%s returned nil; Serve returned %v, not ErrServerClosed", d.label, out.ServeErr)
 		}
-		if out.LateDialTried && !out.DialRefusedAfter {
+		if d.label == "shutdown" && out.LateDialTried && !out.DialRefusedAfter {
 			rc.Violate("accepting_after_shutdown", cb, "a connection attempt after a successful Shutdown was not refused")
 		}
-		// connections that were idle when Shutdown returned must be closed by the server
+		// connections must be closed by the server
 		for i, c := range out.ClientConn {
 			if c == nil || out.ClientSaw[i] == "closed_by_client" {
 				continue
@@ -707,11 +735,11 @@ func checkC17(rc *RunCtx, sc *lifeScenario, out *lifeOutcome, seed uint64) {
 				continue // still in the listener's backlog when it was closed: reset by the simulated stack
 			}
 			if !out.SrvClosedAtEnd[i] {
-				rc.Violate("idle_conn_open_after_shutdown", cb, "Shutdown returned nil but the server end of %s was still open when the scenario ended, seconds later (client %d saw %q)", c.Name, i, out.ClientSaw[i])
+				rc.Violate("idle_conn_open_after_shutdown", cb+after, "%s returned nil but the server end of %s was still open when the scenario ended, seconds later (client %d saw %q)", d.label, c.Name, i, out.ClientSaw[i])
 				break
 			}
 		}
-		// every request whose handler had started before Shutdown returned has its complete reply written
+		// every request whose handler had started before this Shutdown returned has its complete reply written
 		for ci, cl := range sc.Clients {
 			c := out.ClientConn[ci]
 			if c == nil {
@@ -722,23 +750,22 @@ func checkC17(rc *RunCtx, sc *lifeScenario, out *lifeOutcome, seed uint64) {
 					continue
 				}
 				st, started := out.HandlerStart[op.TID]
-				if !started || st > out.ShutdownRetStep {
+				if !started || st > d.retStep {
 					continue
 				}
 				if out.ClientSaw[ci] == "closed_by_client" {
 					continue
 				}
 				want := lifeModelReply(seed, op.Frame)
-				// bytes the server wrote on that connection up to the step at which Shutdown returned
 				var wrote []byte
 				for _, r := range c.peer.Rec {
-					if r.Kind == "write" && r.Err == nil && r.Step <= out.ShutdownRetStep {
+					if r.Kind == "write" && r.Err == nil && r.Step <= d.retStep {
 						wrote = append(wrote, r.Data...)
 					}
 				}
 				if !bytes.Contains(wrote, want) {
-					rc.Violate("inflight_reply_lost", cb, "handler for request tid %d had started (step %d) before Shutdown returned nil (step %d) but its complete reply %x had not been written to the client by then (written: %x)",
-						op.TID, st, out.ShutdownRetStep, trunc(want, 24), trunc(wrote, 48))
+					rc.Violate("inflight_reply_lost", cb+after, "handler for request tid %d had started (step %d) before %s returned nil (step %d) but its complete reply %x had not been written to the client by then (written: %x)",
+						op.TID, st, d.label, d.retStep, trunc(want, 24), trunc(wrote, 48))
 					break
 				}
 			}
